@@ -97,7 +97,14 @@ def r08_1(ctx, prog, crate, rec):
                 return None
             seqs = {s for (s, r) in call_sequences(sb, Explorer(sb).run(), tag) if r == "return"}
             allowed = {(), ("clear",), ("wait",), ("wait", "clear", "wait")}
-            ctx.check(seqs <= allowed and ("wait", "clear", "wait") in seqs and ("wait",) in seqs, "R08.1", [sb.path, "wait-clear-wait"],
+            has_flag = any(sb.local_ty(l_) == "bool" for l_ in range(1, sb.arg_count + 1))
+            if has_flag or len(rec.sync_closures) == 1:
+                shape_ok = seqs <= allowed and ("wait", "clear", "wait") in seqs and ("wait",) in seqs
+            elif any("clear" in q for q in seqs):
+                shape_ok = seqs <= allowed and ("wait", "clear", "wait") in seqs        # the start step of a start/end pair
+            else:
+                shape_ok = seqs <= {(), ("wait",)} and ("wait",) in seqs                  # the end step
+            ctx.check(shape_ok, "R08.1", [sb.path, "wait-clear-wait"],
                       "feasible wait/clear sequences of the synchronisation helper are %s; expected wait,clear,wait at the start and a single "
                       "wait at the end (and none without a barrier)" % sorted(seqs), sb.where(0), detail=sorted(seqs))
             # every wait is on the barrier parameter
@@ -267,21 +274,17 @@ def r08_2(ctx, prog, crate, rec):
         x = rcl[0]
         ctx.saw(x)
         c = [c for c in x.live_calls() if is_rec_call(c)][0]
-        srcs = x.prov.op_src(c.args[1], path=(1,))
-        ups = {s.a.lstrip("*") for s in srcs if s.kind == "upvar"}
-        bar_caps = []
-        for cn in x.captures or []:
-            cp = prog.capture_operand(x, cn)
-            if cp and cp[1]["k"] in ("copy", "move") and "std::sync::Barrier" in cp[0].local_ty(cp[1]["p"]["l"]):
-                bar_caps.append(cn)
-        ctx.check(len(bar_caps) == 1 and bar_caps[0].lstrip("*") in ups and any(s.kind == "call" and s.a == "std::option::Option::as_ref" for s in srcs), "R08.2",
-                  [x.path, "recorder-gets-the-barrier"], "the recorder's barrier argument derives from %s" % sorted(s.label() for s in srcs), c.line())
-        cap = None
-        for cn in bar_caps:
-            cap = prog.capture_operand(x, cn)
-        if cap:
-            ctx.check(any(s.kind == "call" and s.b == bn.bb for s in cap[0].prov.op_src(cap[1])), "R08.2", [x.path, "captured-barrier-is-this-rounds"],
-                      "the captured barrier is not the one created this round", c.line())
+        # followed across closure boundaries (captures and closure parameters, rules/common.trace_sources): the barrier
+        # argument is `<this round's barrier>.as_ref()` - whichever closure captures the barrier and whichever passes it on
+        from .common import trace_sources
+        tr = trace_sources(prog, x, c.args[1], path=(1,))
+        as_ref = any(s_.kind == "call" and s_.a == "std::option::Option::as_ref" for _b, s_ in tr)
+        made = {(bb_.path, s_.b) for bb_, s_ in tr if s_.kind == "call" and s_.a == "std::sync::Barrier::new"}
+        ctx.check(as_ref and len(made) >= 1, "R08.2", [x.path, "recorder-gets-the-barrier"],
+                  "the recorder's barrier argument derives from %s" % sorted({s_.label() for _b, s_ in tr}), c.line())
+        if made:
+            ctx.check(made == {(b.path, bn.bb)}, "R08.2", [x.path, "captured-barrier-is-this-rounds"],
+                      "the barrier handed to the recorder is not (only) the one created this round", c.line())
 
 
 def r08_3(ctx, prog, crate, rec):
@@ -339,35 +342,49 @@ def r08_7(ctx, prog, crate, rec):
 
 
 def r08_4(ctx, prog, crate, rec):
-    cands = [b for b in prog.lib_bodies(crate) if any(c.callee == "util::thread::pool::ThreadPool::par_extend" for c in b.live_calls())
+    cands = [b for b in prog.owner_bodies(crate) if any(c.callee == "util::thread::pool::ThreadPool::par_extend" for c in b.live_calls())
              and "::tests::" not in b.path and not b.path.startswith("util::thread::pool")]
     if not ctx.anchor("R08.4", "caller of par_extend", cands, 1):
         return
     for b in cands:
         pe = [c for c in b.live_calls() if c.callee == "util::thread::pool::ThreadPool::par_extend"][0]
         frp = [c for c in b.live_calls() if c.callee == "std::slice::from_raw_parts"]
-        fm = [c for c in b.live_calls() if c.callee == "std::iter::Iterator::find_map" and c.bb in b.reach([pe.bb])]
-        if not ctx.check(len(frp) == 1 and len(fm) == 1, "R08.4", [b.path, "shape"], "from_raw_parts x%d find_map x%d" % (len(frp), len(fm)), b.where(0)):
+        # the search for a missing result: find_map / position / find (Some = missing), any(is_none) (true = missing),
+        # all(is_some) (false = missing)
+        KINDS = {"find_map": "some", "position": "some", "find": "some", "rposition": "some", "any": "true", "all": "false"}
+
+        def search_kind(c):     # std::iter::Iterator::position or a specialised <slice::Iter as Iterator>::position
+            last = c.callee.rsplit("::", 1)[-1]
+            return KINDS.get(last) if "Iterator" in c.callee.rsplit("::", 1)[0] else None
+        fm = [c for c in b.live_calls() if search_kind(c) and c.bb in b.reach([pe.bb]) and any("RawSample" in g for g in c.gargs)]
+        if not ctx.check(len(frp) == 1 and len(fm) == 1, "R08.4", [b.path, "shape"], "from_raw_parts x%d searches over the results x%d" % (len(frp), len(fm)), b.where(0)):
             continue
         frp, fm = frp[0], fm[0]
         ok = False
         sw_ = tables.switch_on_call_result(b, fm)
         for bi, t in ([sw_] if sw_ is not None else []):
                 arms, otherwise = tables.arm_targets(t)
-                some_t = arms.get(1)
-                none_t = arms.get(0, otherwise)
-                if some_t is None:
+                how = search_kind(fm)
+                if how == "some":
+                    some_t, none_t = arms.get(1), arms.get(0, otherwise)
+                elif how == "true":
+                    some_t, none_t = arms.get(1, otherwise), arms.get(0, otherwise)
+                else:
+                    some_t, none_t = arms.get(0, otherwise), arms.get(1, otherwise)
+                if some_t is None or some_t == none_t:
                     continue
-                # Some arm diverges with a panic; from_raw_parts only via None arm
+                # the "missing" arm diverges with a panic; from_raw_parts only via the other arm
                 r = b.reach([some_t], avoid=[bi])
                 diverges = not (r & (set(b.returns) | {frp.bb})) and any(b.call_at(x) is not None and b.call_at(x).callee in ("std::rt::panic_fmt", "core::panicking::panic_fmt",
                                                                           "core::panicking::panic", "std::rt::begin_panic") for x in r)
                 ok = diverges and b.dominates(none_t, frp.bb) and b.dominates(fm.bb, frp.bb)
         ctx.check(ok, "R08.4", [b.path, "missing-result-panics-before-reinterpretation"],
                   "a missing per-thread result does not panic before the Option<RawSample> slice is reinterpreted", frp.line())
-        # the closure looks for None entries
-        cl = [x for x in prog.children(b) if x.kind == "Closure" and any(c.callee == "std::option::Option::is_none" for c in x.live_calls())]
-        ctx.check(len(cl) >= 1, "R08.4", [b.path, "looks-for-None"], "the search closure does not test is_none()", fm.line())
+        # the search looks for None entries: a closure testing is_none() (is_some() for `all`), or that method passed by name
+        want = "std::option::Option::is_some" if search_kind(fm) == "false" else "std::option::Option::is_none"
+        cl = [x for x in prog.children(b) if x.kind == "Closure" and any(c.callee == want for c in x.live_calls())]
+        by_name = any(a.get("k") == "const" and norm(a["c"].get("fn") or "") == want for a in fm.args)
+        ctx.check(len(cl) >= 1 or by_name, "R08.4", [b.path, "looks-for-None"], "the search does not test is_none()", fm.line())
         # the slice searched is the vector par_extend filled
         v = {s.label() for s in b.prov.op_src(pe.args[1]) if s.kind in ("call",)}
         ctx.check(b.dominates(pe.bb, fm.bb), "R08.4", [b.path, "checked-after-broadcast"], "results are checked before the broadcast", fm.line())
